@@ -19,9 +19,7 @@ over a fixed schema.  Compilation only — no database.
   a type argument, an operator, a flag, a column ...), used by C02.
 * `compositions(descs)`: statement A as subquery / CTE / EXISTS / scalar subquery / INSERT..FROM SELECT source of B (C22).
 """
-import copy as _copy
 import datetime
-import itertools
 import json
 import random
 import warnings
@@ -31,7 +29,7 @@ from sqlalchemy import (
     Column, DateTime, Float, ForeignKey, Integer, JSON, MetaData, Numeric, String, Table, Text, Boolean,
     select, insert, update, delete, func, text, literal, literal_column, bindparam, case, cast, type_coerce, null, true,
     false, and_, or_, not_, exists, tuple_, extract, union, union_all, intersect, except_, any_, all_, values, column,
-    tablesample, Index, UniqueConstraint, CheckConstraint, ForeignKeyConstraint, PrimaryKeyConstraint, Sequence, lateral,
+    tablesample, Index, UniqueConstraint, CheckConstraint, ForeignKeyConstraint, PrimaryKeyConstraint, Sequence,
 )
 from sqlalchemy import exc as sa_exc
 from sqlalchemy.orm import registry, relationship, aliased, selectinload, joinedload, load_only, defer, subqueryload, \
